@@ -241,6 +241,8 @@ def gen_c05(env, tier):
             # must not depend on that, i.e. on which category happens to be stored as common.
             case = gen.shared_case(rnd.choice(["mean", "mean", "sum", "valid_count"]), nd=rnd.choice([2, 2, 3]), maxrows=8)
             case.weights = gen.weights(case.n, nondyadic=True)
+            if case.func == "mean":
+                case.weights["scale"] = rnd.choice([1, Fraction(1000, 3), Fraction(50000, 7), Fraction(10 ** 6, 13)])
             case.fmt = rnd.choice([("tuple", 0), ("tuple", -1), ("plain", 0), ("nan",)])
             if case.func == "valid_count" and case.fmt[0] == "plain":
                 case.ignore = True
@@ -459,9 +461,23 @@ def gen_c14(env, tier):
                                        "note": what + ("walk re-entered at delivery %d" % nest_at if nest_at else "")}
 
 
+def gen_residue(env, tier, prop):
+    """weighted means with expansion weights in the thousands that are not binary fractions, on both cubes: the cells
+    the index cube reconstructs by differencing carry a rounding residue where the exact value is 0"""
+    rnd, gen = env.rnd, env.gen
+    for _ in range(60 if tier == "quick" else 1000):
+        case = gen.shared_case("mean", nd=rnd.choice([2, 2, 3]), maxrows=8)
+        case.weights = gen.weights(case.n, nondyadic=True)
+        case.weights["scale"] = rnd.choice([Fraction(1000, 3), Fraction(50000, 7), Fraction(10 ** 6, 13)])
+        case.fmt = rnd.choice([("tuple", 0), ("tuple", -1), ("nan",)])
+        env.run_ccube(prop, case)
+        env.run_xcube(prop, case)
+
+
 def gen_c03_all(env, tier):
     gen_c03(env, tier)
     gen_twin_dims(env, tier, "C03")
+    gen_residue(env, tier, "C03")
     gen_wide(env, tier, "C03")
 
 
@@ -781,7 +797,7 @@ def case_from_json(c):
     if c.get("fact"):
         f = c["fact"]
         vals = [[Fraction(x) for x in r] for r in f["vals"]]
-        fact = {"vals": vals, "valid": f["valid"], "form": f["form"], "dtype": f["dtype"], "oned": f["oned"],
+        fact = {"vals": vals, "valid": f["valid"], "form": f["form"], "dtype": f["dtype"], "oned": f["oned"], "offset": f.get("offset", 0),
                 "K": len(vals[0]) if vals else (1 if f["oned"] else len(f["valid"][0]) if f["valid"] else 1)}
     w = None
     if c.get("weights"):
@@ -792,6 +808,8 @@ def case_from_json(c):
             w["w"] = [Fraction(x) for x in w["w"]]
             if "w_event" in w:
                 w["w_event"] = [Fraction(x) for x in w["w_event"]]
+            if "scale" in w:
+                w["scale"] = Fraction(str(w["scale"]))
     fmt = tuple(c["fmt"])
     if len(fmt) > 1 and isinstance(fmt[1], str):
         fmt = (fmt[0], np.datetime64(fmt[1]))
